@@ -104,6 +104,8 @@ func runCase(c map[string]any) (map[string]any, error) {
 		return ev, runUpd(c, ev)
 	case "multi":
 		return ev, runMulti(c, ev)
+	case "open":
+		return ev, runOpen(c, ev)
 	}
 	return nil, fmt.Errorf("unknown op %q", op)
 }
